@@ -261,6 +261,19 @@ func (c *Ctx) codec() *codecTables {
 						recs = append(recs, rec{call.Pos(), loop + "bytes:" + storedField(call, 0)})
 					case "io.LimitReader":
 						recs = append(recs, rec{call.Pos(), loop + "stream:" + storedField(call, 0)})
+					case "io.ReadFull":
+						// a buffer filled from the input and stored (as string or bytes) into a field
+						buf := stripSlices(call.Call.Args[1])
+						if mi, ok := buf.(*ssa.MakeInterface); ok {
+							buf = stripSlices(mi.X)
+						}
+						if f, isStr := storedFieldOfValue(buf); f != "" {
+							kind := "bytes:"
+							if isStr {
+								kind = "str:"
+							}
+							recs = append(recs, rec{call.Pos(), loop + kind + f})
+						}
 					}
 				}
 			}
@@ -375,6 +388,48 @@ func storedField(call *ssa.Call, idx int) string {
 	return found
 }
 
+// storedFieldOfValue follows a buffer forward to the struct field it ends up in; isStr tells
+// whether it was converted to a string on the way.
+func storedFieldOfValue(v ssa.Value) (field string, isStr bool) {
+	seen := map[ssa.Value]bool{}
+	var walk func(v ssa.Value, d int, str bool)
+	walk = func(v ssa.Value, d int, str bool) {
+		if v == nil || seen[v] || d > 8 || v.Referrers() == nil || field != "" {
+			return
+		}
+		seen[v] = true
+		for _, r := range *v.Referrers() {
+			switch x := r.(type) {
+			case *ssa.Store:
+				if x.Val == v {
+					if fa, ok := x.Addr.(*ssa.FieldAddr); ok {
+						f := fieldOf(fa)
+						if i := strings.Index(f, "."); i >= 0 && field == "" {
+							field, isStr = f[i+1:], str
+						}
+					} else if al, ok := x.Addr.(*ssa.Alloc); ok {
+						for _, r2 := range *al.Referrers() {
+							if ld, ok := r2.(*ssa.UnOp); ok && ld.Op == token.MUL {
+								walk(ld, d+1, str)
+							}
+						}
+					}
+				}
+			case *ssa.Convert:
+				walk(x, d+1, str || strings.Contains(x.Type().String(), "string"))
+			case *ssa.Slice:
+				walk(x, d+1, str)
+			case *ssa.Phi:
+				walk(x, d+1, str)
+			case *ssa.ChangeType:
+				walk(x, d+1, str)
+			}
+		}
+	}
+	walk(v, 0, false)
+	return
+}
+
 // codecAgree compares the tables for the given element types and records one obligation each.
 func (c *Ctx) codecAgree(typs []string) {
 	t := c.codec()
@@ -409,6 +464,9 @@ func (c *Ctx) codecAgree(typs []string) {
 
 func tokenAgrees(enc, dec string) bool {
 	if enc == dec {
+		return true
+	}
+	if strings.HasPrefix(enc, "stream:") && strings.HasPrefix(dec, "stream:") {
 		return true
 	}
 	// a constant written, a checked-or-skipped word read
